@@ -164,7 +164,7 @@ type wbCase struct {
 	History  []HistOp  `json:"history"`
 }
 
-var allFeatures = []string{"alias", "dirs", "bin", "tags", "fingerprint", "platforms", "tests", "checks", "fail", "timeouts", "edit-outs", "edit-deps", "rootpkg", "wsmut", "taint", "nocache-build", "extfail", "twins"}
+var allFeatures = []string{"alias", "dirs", "bin", "tags", "fingerprint", "platforms", "tests", "checks", "fail", "timeouts", "edit-outs", "edit-deps", "rootpkg", "wsmut", "taint", "nocache-build", "extfail", "twins", "mirror"}
 
 func (w *wbuild) Name() string { return "wbuild" }
 
